@@ -135,4 +135,47 @@ example : (((runT (empty 2 20 : G Nat Nat) abuse17).2.drop 32).map code) =
     tag (runT (empty 2 20 : G Nat Nat) abuse17).1 16 = 2 ∧ mem (runT (empty 2 20 : G Nat Nat) abuse17).1 2 = [] := by
   decide +kernel
 
+/-! ### `join`: non-tree merges, removed slots (Core/Holes.lean, Core/MergeHoles.lean)
+
+`join()` of `merge.rs` — reached only when the right graph is not a tree — removes a slot of the vertex store. `GX` is a
+graph with its removed slots, `stepX` the total step on it (a call on a removed slot panics, `keys()` and the allocator
+skip it, a collection panics half-way at a removed member), `mergeX` is `merge()` in full with `join`. -/
+
+/-- with no removed slot nothing changes: `stepX` is `stepT`, so all of the above carries over -/
+theorem without_removed_slots_same_step (g : G L D) (op : Op L D) :
+    stepX ⟨g, []⟩ (.core op) = (⟨(stepT g op).1, []⟩, (stepT g op).2) := stepX_nohole g op
+
+/-- **every call keeps the invariant, `join` included**: core calls on graphs with removed slots and the `join` step of
+    `merge_rec`'s second loop, completing or panicking half-way -/
+theorem any_call_with_removed_slots_keeps_indices_in_range (x : GX L D) (h : MSX x) (op : OpX L D) : MSX (stepX x op).1 :=
+  msx_stepX x h op
+
+theorem any_sequence_with_joins_keeps_indices_in_range (n c : Nat) (hc : 0 < c) (ops : List (OpX L D)) :
+    MSX (runX (⟨empty n c, []⟩ : GX L D) ops).1 :=
+  msx_runX ops _ (msx_of_ms _ (ms_empty n c hc))
+
+/-- **`merge` of arbitrary graphs** — trees or not, with removed slots on either side — returning `Ok`, `Err` or panicking
+    half-way, inside `join` or outside: the left graph keeps the invariant (this closes the gap left by
+    `merge_keeps_indices_in_range`, which stopped at `join`) -/
+theorem merge_of_any_graphs_keeps_indices_in_range (x hx : GX L D) (h : MSX x) (left right : Nat) :
+    MSX (mergeX x hx left right).1 := msx_mergeX x hx h left right
+
+/-! non-vacuity: the smallest situation in which `join` runs. Left: ν0 with kids ν1 (label 0) and ν2 (label 1). A right
+    graph whose root has *one* kid under both labels maps that kid to ν1 in the first loop; the second loop then finds ν2
+    under label 1 and calls `join(ν2, ν1)` — the step `fix 0 1 1`: the edge into ν1 is re-targeted to ν2 and slot 1 is
+    removed; afterwards `kids(1)` and `add(1)` panic, `keys()` skips the slot, both edges of ν0 lead to ν2. (The whole
+    `merge` of these two graphs is evaluated by the driver: `#eval (mergeX joinLeft joinRight 0 0)` gives the same state;
+    `mergeRecX` is defined by well-founded recursion, which the kernel does not unfold, so the witness is stated on the
+    step.) -/
+def joinLeft : GX Nat Nat :=
+  ⟨(runT (empty 4 4 : G Nat Nat) [.add 0, .add 1, .add 2, .bind 0 1 0, .bind 0 2 1]).1, []⟩
+def joinRight : GX Nat Nat :=
+  ⟨(runT (empty 4 4 : G Nat Nat) [.add 0, .add 1, .bind 0 1 0, .bind 0 1 1]).1, []⟩
+
+example : (stepX joinLeft (.fix 0 1 1)).2.isSome = true ∧ (stepX joinLeft (.fix 0 1 1)).1.holes = [1] ∧
+    keysX (stepX joinLeft (.fix 0 1 1)).1 = [0, 2] ∧ edg (stepX joinLeft (.fix 0 1 1)).1.g 0 = [(0, 2), (1, 2)] ∧
+    (stepX (stepX joinLeft (.fix 0 1 1)).1 (.core (.kids 1))).2.isNone = true ∧
+    (stepX (stepX joinLeft (.fix 0 1 1)).1 (.core (.add 1))).2.isNone = true := by
+  decide +kernel
+
 end Props.C07
